@@ -85,7 +85,7 @@ func (u *NetworkChannel) OpenConnection() (net.Conn, error) {
 		return nil, errors.Errorf("Packet connections (%v) are not yet supported", scheme)
 	}
 
-	conn, err := net.Dial(u.Address.Scheme, u.Address.Host)
+	conn, err := net.Dial(u.Address.Scheme, u.Address.SocketAddress())
 	if err != nil {
 		err = errors.Wrapf(err, "Remote connection failed to %v", u.Address)
 		log.WithError(err).Errorf("Could not connect to %v: %+v", u.Address, err)
